@@ -101,7 +101,7 @@ func c15Contexts(rng *gen.Rand, g *gen.TreeGen) func(h *gen.Expr) *gen.Expr {
 func c15(r *mon.Run) {
 	r.Rule = "law 1: for seeded random trees A, B of all fragments and random typed documents d, Search('A | B', d) is compared with Search(B, Search(A, d)) where the intermediate value is handed on as the Go value returned (no JSON round trip), in value and in error-ness; " +
 		"law 2: for a random tree E with a JSON value v = Search(E, d) and a random context C[.] of 1-3 layers whose hole is evaluated against the root (operands of || && ! comparators, multi-select members, function arguments, heads of chains and pipes), Search(C[E], d) is compared with Search(C[literal(v)], d). " +
-		"When the reference model allows more than one member order, both sides are only required to be allowed results. Non-trivial = distinct (A, B, d) where Search(A, d) is neither null nor an error (law 1), distinct (C, E, d) with a non-null v (law 2)."
+		"law 1 additionally on every pair of 15 projections / by-expression calls whose right-hand side fails on only some elements (first, middle, last, none) x 14 selections (indices, slices, length, …). When the reference model allows more than one member order, both sides are only required to be allowed results. Non-trivial = distinct (A, B, d) where Search(A, d) is neither null nor an error (law 1), distinct (C, E, d) with a non-null v (law 2)."
 	r.Floor = 2000
 	r.Assumptions = []string{"metamorphic: both sides of each law are computed by the implementation under test; the reference model is used only to recognise order nondeterminism",
 		"literals are spelled with shortest round-trip floats (gen.FormatNumber)"}
@@ -211,5 +211,73 @@ func c15(r *mon.Run) {
 				t.Sample(map[string]interface{}{"law": "substitution", "C[E]": gen.Spell(T1), "C[lit]": gen.Spell(T2), "document": doc, "result": o1.String()})
 			}
 		}}
-	r.Exec(law1, law2)
+	// law 1 on the shapes where a "first match" shortcut would bite: A is a projection (or a by-expression
+	// function) whose right-hand side fails on only some elements, B selects from its result
+	absA := func() *gen.Expr { return gen.Func("abs", gen.Field("a")) }
+	fn := gen.StFunc("abs", gen.Field("a"))
+	x := func() *gen.Expr { return gen.Field("x") }
+	gt0 := func() *gen.Expr { return gen.Cmp(">", absA(), gen.LitJSON("0")) }
+	As := []*gen.Expr{
+		gen.Chain(x(), gen.StListStar(), fn), gen.Chain(x(), gen.StFilter(gt0())), gen.Chain(x(), gen.StFlatten(), fn), gen.Chain(x(), gen.StSliceS("", "", "-1"), fn), gen.Chain(x(), gen.StSliceS("1", "", ""), fn),
+		gen.Chain(gen.Field("o"), gen.StStar(), fn), gen.Func("map", gen.ExpRef(absA()), x()), gen.Func("sort_by", x(), gen.ExpRef(absA())), gen.Chain(x(), gen.StListStar(), gen.StField("k")),
+		gen.Chain(x(), gen.StListStar(), gen.StMultiList(gen.Field("k"), absA())), gen.Chain(x(), gen.StFilter(gen.Cmp("!=", gen.Field("k"), gen.LitJSON("2"))), fn), gen.Chain(gen.Field("y"), gen.StListStar(), gen.StListStar(), fn),
+		gen.Chain(gen.Field("y"), gen.StFlatten(), fn), gen.Chain(x(), gen.StListStar(), gen.StField("missing")), gen.Chain(x(), gen.StFilter(gen.Cmp("==", gen.Field("k"), gen.LitJSON("3")))),
+	}
+	Bs := []*gen.Expr{
+		gen.Chain(nil, gen.StIndex(0)), gen.Chain(nil, gen.StIndex(1)), gen.Chain(nil, gen.StIndex(-1)), gen.Chain(nil, gen.StIndex(0), gen.StField("k")), gen.Func("length", gen.Current()), gen.Chain(nil, gen.StSliceS("0", "1", "")),
+		gen.Current(), gen.Chain(nil, gen.StListStar()), gen.Chain(nil, gen.StFlatten()), gen.Func("not_null", gen.Current()), gen.Chain(nil, gen.StIndex(0), gen.StIndex(0)), gen.Func("type", gen.Current()),
+		gen.Or(gen.Chain(nil, gen.StIndex(5)), gen.LitJSON("9")), gen.MultiList(gen.Chain(nil, gen.StIndex(0)), gen.Chain(nil, gen.StIndex(-1))),
+	}
+	var sdocs []interface{}
+	for bad := -1; bad < 4; bad++ {
+		mk := func(n int) []interface{} {
+			arr := make([]interface{}, n)
+			for i := range arr {
+				var a interface{} = float64(i + 1)
+				if i == bad {
+					a = "s"
+				}
+				if i == 1 && bad == 3 {
+					a = nil
+				}
+				arr[i] = map[string]interface{}{"a": a, "k": float64(i + 1)}
+			}
+			return arr
+		}
+		xs := mk(4)
+		sdocs = append(sdocs, map[string]interface{}{"x": xs, "o": map[string]interface{}{"p": xs[0], "q": xs[1], "r": xs[2]}, "y": []interface{}{mk(2), mk(4)}})
+	}
+	nA, nB, nD := len(As), len(Bs), len(sdocs)
+	shaped := mon.Workload{Name: "pipe-after-projection", N: nA * nB * nD,
+		Describe: func(i int) string { return gen.Spell(gen.Pipe(As[i/(nB*nD)], Bs[(i/nD)%nB])) + " on " + ref.Canon(sdocs[i%nD]) },
+		Do: func(i int, t *mon.Tally) {
+			A, B, doc := As[i/(nB*nD)], Bs[(i/nD)%nB], sdocs[i%nD]
+			t.Eval()
+			whole := gen.Pipe(A, B)
+			ow := apiSearch(gen.Spell(whole), mon.DeepCopy(doc))
+			oa := apiSearch(gen.Spell(A), mon.DeepCopy(doc))
+			ob := oa
+			if !oa.Panicked && oa.Err == nil {
+				ob = apiSearch(gen.Spell(B), oa.V)
+			}
+			if ow.Panicked || ob.Panicked {
+				r.Violate(&mon.Violation{Workload: "pipe-after-projection", Index: i, API: "Search", Expr: gen.Spell(whole), Doc: doc, Expected: "no panic", Observed: ow.String() + " / " + ob.String(), Class: "panic"})
+				return
+			}
+			if !sameOutcome(ow, ob) {
+				res := ref.RefSet(whole, doc, gen.Quirks{})
+				if (len(res.Outcomes) > 1 || res.Skipped != "" || res.DontCare) && agree(res, ow, ob) {
+					return
+				}
+				r.Violate(&mon.Violation{Workload: "pipe-after-projection", Index: i, API: "Search", Expr: gen.Spell(whole), Doc: doc,
+					Expected: "Search(B, Search(A, d)) = " + ob.String() + "   [A = " + gen.Spell(A) + " ; B = " + gen.Spell(B) + " ; Search(A, d) = " + oa.String() + "]",
+					Observed: "Search('A | B', d) = " + ow.String(), Class: "pipe law (projection | selection)"})
+				return
+			}
+			t.NontrivialDistinct(1)
+			if oa.Err != nil {
+				t.Count("shaped: A errors, the pipe must error")
+			}
+		}}
+	r.Exec(law1, law2, shaped)
 }
